@@ -237,13 +237,15 @@ pub fn run(g: &mut Global) {
     let ll = g.tier.pick(70_000usize, 300_000usize);
     g.exhaustive(
         "long_life",
-        5 * 3 * 4,
+        5 * 3 * 5,
         &move |i| {
             let kind = LK[(i % 5) as usize];
             let r = i / 5;
             let n = [2usize, 14, 33][(r % 3) as usize];
-            let regime = [0usize, 3, 1, 2][(r / 3) as usize % 4];
-            let mut gen = crate::props::c13::Gen::new(seedl ^ (i + 3).wrapping_mul(0x9E3779B97F4A7C15), regime, 1.7, 2 + n);
+            // regime 5: strictly monotone ramps of 6 500 steps each, alternately falling and rising (an average of
+            // movement in one direction decays for thousands of steps while the other stays put)
+            let regime = [0usize, 3, 1, 2, 5][(r / 3) as usize % 5];
+            let mut gen = crate::props::c13::Gen::new(seedl ^ (i + 3).wrapping_mul(0x9E3779B97F4A7C15), regime, 1.7, if regime == 5 { 6500 } else { 2 + n });
             let cfg = if kind == Kind::SlowStoch { Cfg { kind, p: vec![n, 3], m: X(0.0) } } else { Cfg { kind, p: vec![n], m: X(0.0) } };
             if kind.scalar() && i % 2 == 0 {
                 Case { cfg, scalar: true, xs: (0..ll).map(|_| X(gen.next())).collect(), bars: vec![], stride: 0 }
